@@ -1,15 +1,12 @@
-from textwrap import indent
-
-
 from pydbml.classes import StickyNote
 from pydbml.renderer.dbml.default.renderer import DefaultDBMLRenderer
-from pydbml.renderer.dbml.default.utils import quote_string, name_to_dbml
+from pydbml.renderer.dbml.default.utils import indent_text, quote_string, name_to_dbml
 
 
 @DefaultDBMLRenderer.renderer_for(StickyNote)
 def render_sticky_note(model: StickyNote) -> str:
     text = quote_string(model.text)
 
-    text = indent(text, '    ')
+    text = indent_text(text, '    ')
     result = f'Note {name_to_dbml(model.name)} {{\n{text}\n}}'
     return result
